@@ -423,7 +423,7 @@ func TestVerifC01Programs(t *testing.T) {
 	rep.SetRule("seeded operation programs (Append batches 1..8, replicated AppendMessageSet in chunks, Truncate at 7 position classes, Close+New, SetHighWatermark) over 7 MaxSegmentBytes values; after every step NewestOffset/OldestOffset, full read-back from every start offset (all when <=48 messages) committed+uncommitted, digest stability and a raw parse of the .log files are compared with a reference model; non-trivial = program rolled a segment and truncated or reopened; distinct = program text + segment size")
 	rep.Assume("truncation offsets are > HW, as in the replication protocol (a follower never truncates committed data)")
 	root := kit.NewRNG(kit.Mix(kit.Seed(), 0xC01))
-	nprog := kit.Scale(260, 6000)
+	nprog := kit.Scale(260, 2600)
 	seeds := make([]uint64, nprog)
 	for p := range seeds {
 		seeds[p] = root.Uint64()
@@ -579,7 +579,7 @@ func TestVerifC01Concurrent(t *testing.T) {
 	defer rep.Write()
 	rep.SetRule("concurrent runs under -race: 1 appender (batches 1..6), 1 goroutine calling checkAndPerformSplit, R uncommitted readers created at arbitrary offsets while the log grows; content is f(seed, offset) so each reader verifies every message; non-trivial = run rolled >=2 segments and readers crossed a boundary; distinct = (segment size, total, reader starts)")
 	root := kit.NewRNG(kit.Mix(kit.Seed(), 0xC01C))
-	runs := kit.Scale(30, 400)
+	runs := kit.Scale(30, 200)
 	for i := 0; i < runs && rep.NumViolations() < 4; i++ {
 		rng := root.Fork(uint64(i))
 		seed := rng.Uint64()
